@@ -25,7 +25,7 @@ RULE = {
            "and >=1 export check; distinct = distinct (class, initial-file features, multiset of op kinds, fault kinds fired, final key set)",
 }
 FAULT_KINDS = {"C16": ["io_open_error", "io_read_error", "io_write_error_eio", "io_write_error_enospc", "external_edit",
-                       "same_tick_write", "malformed_external_edit", "clock_step_back"]}
+                       "same_tick_write", "malformed_external_edit", "clock_step_back", "io_write_during_read"]}
 COMPONENTS = {
     "real": ["passlib.apache.HtpasswdFile / HtdigestFile / _CommonFile (all methods)", "passlib.apache.htpasswd_context and custom "
              "CryptContexts", "passlib.hash.htdigest and every scheme of the contexts"],
